@@ -120,6 +120,60 @@ func genC05(tier string, seed int64) (*Family, error) {
 				tr+fmt.Sprintf("\tcheckTwoStageCand(tr, n, %s, 1, %d, %v, %v, s, f, b, err)\n", candLit, k-1, m.s1, m.s2), 3)
 		}
 	}
+	// a selected call must leave the builder's rule set intact for the next whole-set call
+	selCalls := []struct{ id, call string }{
+		{"SelMix", "eng.ExecuteSelectedRulesMixModel(rb, names)"},
+		{"SelInverse", "eng.ExecuteSelectedRulesInverseMixModel(rb, names)"},
+		{"SelConc", "eng.ExecuteSelectedRulesConcurrent(rb, names)"},
+		{"SelSorted", "eng.ExecuteSelectedRulesWithControl(rb, true, names)"},
+		{"SelNSortMConc", "eng.ExecuteSelectedNSortMConcurrent(1, 1, rb, true, names)"},
+		{"SelNConcMSort", "eng.ExecuteSelectedNConcurrentMSort(1, 1, rb, true, names)"},
+		{"SelNConcMConc", "eng.ExecuteSelectedNConcurrentMConcurrent(1, 1, rb, true, names)"},
+	}
+	for _, sc := range selCalls {
+		name := "Q_" + sc.id + "_then_whole_set"
+		fmt.Fprintf(&b, `
+// %s on a sub-list given in reverse order, then whole-set models on the same builder
+func %s() {
+	n := 3
+	s := symSal(n)
+	rb := build(n, s, allFalse(n))
+	eng := engine.NewGengine()
+	names := []string{"r2", "r1"}
+	_ = %s
+	vnd.Quiesce()
+	mark := len(vnd.Trace())
+	f := allFalse(n)
+	err := eng.ExecuteInverseMixModel(rb)
+	vnd.Event("ret")
+	vnd.Quiesce()
+	vnd.Reach("executed")
+	for i := 0; i < n; i++ {
+		vnd.Assert(countSince(mark, sname(i)) == 1, "after a selected call every rule of the set still runs exactly once")
+	}
+	ord := startOrder(vnd.Trace()[mark:], n)
+	vnd.Assert(len(ord) == n, "three rules ran")
+	if len(ord) == n {
+		vnd.Assert(vnd.And(s[ord[0]] >= s[ord[2]], s[ord[1]] >= s[ord[2]]), "inverse mix still ends with the lowest-priority rule")
+	}
+	vnd.Assert(err == nil, "no error")
+	mark = len(vnd.Trace())
+	err = eng.ExecuteNSortMConcurrent(2, 1, rb, true)
+	vnd.Quiesce()
+	ord = startOrder(vnd.Trace()[mark:], n)
+	vnd.Assert(len(ord) == n, "three rules ran")
+	if len(ord) == n {
+		vnd.Assert(vnd.And(s[ord[0]] >= s[ord[1]], s[ord[1]] >= s[ord[2]]), "N-M still runs the rules in priority order")
+	}
+	for i := 0; i < n; i++ {
+		vnd.Assert(countSince(mark, sname(i)) == 1, "after a selected call every rule of the set still runs exactly once")
+	}
+	_ = f
+}
+`, sc.id, name, sc.call)
+		fam.Instances = append(fam.Instances, Instance{Func: name, Stratum: "sequence:" + sc.id, Desc: sc.id + " then whole-set models on the same builder", Expect: []string{"executed"}})
+	}
+	b.WriteString("\nfunc countSince(mark int, name string) int {\n\tc := 0\n\tfor _, e := range vnd.Trace()[mark:] {\n\t\tif e == name {\n\t\t\tc++\n\t\t}\n\t}\n\treturn c\n}\n")
 	finishFamily(fam, pkg, b.String())
 	return fam, nil
 }
